@@ -16,6 +16,9 @@ type chunkReader struct {
 	pos    int64
 	chunks []int
 	calls  int
+	// eofWithData: the read that delivers the last byte of the input returns (n, io.EOF) - what
+	// io.Reader explicitly allows - instead of reporting EOF on a separate empty read
+	eofWithData bool
 }
 
 func (r *chunkReader) Size() int64 { return int64(len(r.data)) }
@@ -51,6 +54,9 @@ func (r *chunkReader) Read(p []byte) (int, error) {
 	r.calls++
 	copy(p, r.data[r.pos:int(r.pos)+c])
 	r.pos += int64(c)
+	if r.eofWithData && r.pos == int64(len(r.data)) {
+		return c, io.EOF
+	}
 	return c, nil
 }
 
@@ -62,10 +68,10 @@ func errClass(err error) string {
 }
 
 // runParserOps executes ops on the real parser; returns the verdict line and window line.
-func runParserOps(input []byte, chunks []int, ops []string) (string, string) {
+func runParserOps(input []byte, chunks []int, ops []string, eofWithData bool) (string, string) {
 	var outs, wins []string
 	res := guard(func() string {
-		p := parser.New(&chunkReader{data: input, chunks: chunks})
+		p := parser.New(&chunkReader{data: input, chunks: chunks, eofWithData: eofWithData})
 		for _, op := range ops {
 			var o string
 			var n int
@@ -164,6 +170,15 @@ func runParserOps(input []byte, chunks []int, ops []string) (string, string) {
 
 func parserCase(c *Ctx, input []byte, chunks []int, ops []string) {
 	args := fmt.Sprintf("input=%s chunks=%s ops=%s", hx(input), ints(chunks), strings.Join(ops, ";"))
+	// the model knows nothing about how the source reports the end of the input (the property says
+	// it must not matter): a third of the cases use a source that returns the last bytes together
+	// with io.EOF
+	if c.Rng.Chance(1, 3) {
+		args += " eof=data"
+		c.Stat("eof", "with-data")
+	} else {
+		c.Stat("eof", "separate")
+	}
 	nontriv := len(ops) >= 2 && len(input) > 0
 	v := c.Case(Verdict, "parser.ops", args, nontriv)
 	c.Case(Direct, "parser.spec", args, nontriv)
@@ -190,7 +205,7 @@ func init() {
 	areas["parser"] = areaParser
 	run := func(win bool) opFn {
 		return func(f Fields) string {
-			v, w := runParserOps(f.Hex("input"), f.Ints("chunks"), f.List("ops", ";"))
+			v, w := runParserOps(f.Hex("input"), f.Ints("chunks"), f.List("ops", ";"), f["eof"] == "data")
 			if win {
 				return w
 			}
